@@ -85,7 +85,7 @@ CHECKS = {
   "ref": "DESIGN.md section 5 C14",
  },
  "C15": {
-  "bins": ["config", "serverapp"], "specs": ["config", "serverapp"],
+  "bins": ["config", "serverapp"], "specs": ["config", "serverapp", "plugins"],
   "level": "model_checking",
   "technique": "TLA+ abstract syntax + Meaning + fault classes for Humphrey configuration files and a line-by-line model of parse_conf/from_tree checked by TLC (Conforms, NoCrash, liveness, lemmas, refuted deviations/bugs); TLC-generated configurations and single-fault mutants replayed on the real loader under seeded layouts; random full-width configurations recorded from the code validated by TLC",
   "text": "TLC checks that the line-by-line code model (parse_conf, parse_section, include, parse_size, from_tree, parse_host, parse_route: 18 actions) conforms to Meaning(ast) and never crashes over presence subsets of 14 scalar keys, per-key values incl. sizes {0,1,1023,128} x {none,K,M,G} and the 2^63 boundary, 0..3 hosts x 0..3 routes of 9 kinds x arity 1..3, include splittings and 16 fault classes at every token, with lemmas (permutation of keys/sections, include splitting, unknown keys ignored, defaults independent of context, every injected fault located); each TLC case is rendered under 5 (thorough 12) seeded layouts (indentation, comments, blank lines, key order, include files, non-ASCII mapping) and loaded by the real parse_conf + Config::from_tree: fields compared one by one, rejections by class, file and line; 1,000 / 12,000 random configurations (0..4 hosts, 0..8 routes, injected faults) are validated by Trace_Config. Beyond the loader (spec/serverapp): TLC checks that the app built by main/init_app_routes answers as Serve(cfg, request) says (host and route order, redirect exactness, WebSocket proxied iff configured, log-level masks) and the proxy_websocket byte pump as a state machine (order, no loss, close propagation, liveness), with 17 must-violate configs; generated and random configurations are rendered to real files, served by the real humphrey binary with scripted upstreams and WebSocket targets, and every session is validated by Trace_ServerApp.",
